@@ -38,6 +38,9 @@ Inductive case :=
 | CServe (db : bool)                                      (* metadata store driven: db (bbolt) or memory *)
          (fwd : bool)                                     (* the TOC has a hardlink entry before the entry of its target
                                                              (observed; the db store resolves hardlinks while decoding and refuses it) *)
+         (late : list (path * Z))                         (* db store only (C05 known finding F11): per directory, the number of its
+                                                             sub-directories whose TOC entry follows an entry below them; the db store
+                                                             counts the parent link of each of them twice. Computed from the TOC order. *)
          (tar : list tent) (cs : Z)
          (files : list (path * list (Z * list key)))     (* regular files by owner path; per chunk offset the keys sharing its compression member *)
          (obs_chunks : list (list (Z * Z)))              (* chunk table observed per file (ChunkEntryForOffset walk) *)
@@ -66,11 +69,19 @@ Definition owner_of (mv : list (path * vnode)) (p : path) : option path :=
 Definition opath_eqb (a b : option path) : bool :=
   match a, b with Some x, Some y => path_eqb x y | None, None => true | _, _ => false end.
 
-Definition node_ok (mv : list (path * vnode)) (files : list path) (ov : list (path * onode)) (x : path * onode) : bool :=
+Fixpoint late_of (late : list (path * Z)) (p : path) : Z :=
+  match late with
+  | [] => 0
+  | (q, k) :: t => if path_eqb q p then k else late_of t p
+  end.
+
+Definition node_ok (late : list (path * Z)) (mv : list (path * vnode)) (files : list path) (ov : list (path * onode)) (x : path * onode) : bool :=
   let '(p, o) := x in
   match lookup_view mv p with
   | None => false
-  | Some n =>
+  | Some n0 =>
+      let n := mkVnode (v_kind n0) (v_mode n0) (v_uid n0) (v_gid n0) (v_size n0) (v_mtime n0) (v_link n0) (v_maj n0) (v_min n0)
+                       (v_xattrs n0) (v_nlink n0 + late_of late p) (v_data n0) (v_owner n0) in
       (v_mode n =? o_mode o) && (v_uid n =? o_uid o) && (v_gid n =? o_gid o) && (v_size n =? o_size o)
       && (v_mtime n =? o_mtime o) && String.eqb (v_link n) (o_link o) && (v_maj n =? o_maj o) && (v_min n =? o_min o)
       && xattrs_eqb (v_xattrs n) (o_xattrs o) && (v_nlink n =? o_nlink o)
@@ -82,10 +93,10 @@ Definition node_ok (mv : list (path * vnode)) (files : list path) (ov : list (pa
       && fattr_eqb (fuse_attr (v_mode n) (v_size n) (v_link n) (v_maj n) (v_min n) (v_nlink n) (v_uid n) (v_gid n) (v_mtime n)) (o_fuse o)
   end.
 
-Definition view_ok (mv : list (path * vnode)) (files : list path) (ov : list (path * onode)) : bool :=
+Definition view_ok (late : list (path * Z)) (mv : list (path * vnode)) (files : list path) (ov : list (path * onode)) : bool :=
   Nat.eqb (List.length mv) (List.length ov)
   && Nat.eqb (List.length (nodup_paths (map fst ov))) (List.length ov)
-  && forallb (node_ok mv files ov) ov.
+  && forallb (node_ok late mv files ov) ov.
 
 (* the file list of the case is exactly the set of regular nodes of the model view *)
 Definition files_ok (mv : list (path * vnode)) (files : list path) : bool :=
@@ -104,12 +115,12 @@ Definition zz_eqb (a b : Z * Z) : bool := (fst a =? fst b) && (snd a =? snd b).
 
 Definition case_ok (c : case) : bool :=
   match c with
-  | CServe db fwd tar cs files obs_chunks view ops outs =>
+  | CServe db fwd late tar cs files obs_chunks view ops outs =>
       match (if db && fwd then None else view_of_tar tar), view with
       | None, None => true
       | Some mv, Some ov =>
           let L := layer_of db mv cs files in
-          view_ok mv (map fst files) ov
+          view_ok late mv (map fst files) ov
           && files_ok mv (map fst files)
           && list_eqb (list_eqb zz_eqb) (map (fun i => map (fun k => let '(_, o, s) := k in (o, s)) (file_keys L i)) (seq 0 (List.length L))) obs_chunks
           && list_eqb out_eqb (snd (run L cempty (map (op_of L) ops))) outs
